@@ -174,7 +174,9 @@ def strategy_equivalence(ctx, case):
 @oracle
 def cached_likelihoods(ctx, case):
     """cached-integral / cached-amplitude likelihoods give the NLL and gradient of the default model"""
-    base = dict(case, model="default", batch=65000, n_sets=1, gauss_fixed=False)
+    # (no Gaussian constraints here: NllCase centres them on the model's own randomly initialised state, which is not
+    # the same in two separately built models; the constraint term is model independent and is decided by C06/C07)
+    base = dict(case, model="default", batch=65000, n_sets=1, gauss_fixed=False, gauss=[])
     nc0 = nllcase.NllCase(base)
     v0, g0 = nc0.fcn.nll_grad({})
     ref_params = {k: float(v) for k, v in nc0.amp.get_params().items()}
